@@ -341,6 +341,69 @@ fn check_archive_index(c: &ArchiveIndexProg) -> Verdict {
     }
 }
 
+// ---- archive group through the merging builder -----------------------------------
+
+/// `build_merged` over source indices that share keys: the group it writes must be accepted by
+/// `ArchiveGroup::parse` and hold each distinct key once.
+#[derive(Debug, Clone, Serialize, Deserialize)]
+struct GroupProg {
+    /// distinct keys of the union (a page holds 157 records)
+    distinct: u16,
+    sources: u8,
+    /// every `shared_every`-th key is in all sources (0: no key is shared)
+    shared_every: u8,
+}
+
+fn check_group(c: &GroupProg) -> Verdict {
+    use cascette_formats::archive::{ArchiveGroup, ArchiveIndex, ArchiveIndexBuilder, build_merged};
+    use std::io::Cursor;
+    let mut r = Rng::new(0xC08_6000 ^ u64::from(c.distinct) << 16 ^ u64::from(c.sources) << 8 ^ u64::from(c.shared_every));
+    let mut keys: Vec<Vec<u8>> = (0..c.distinct).map(|_| r.bytes(16)).collect();
+    keys.sort();
+    keys.dedup();
+    let ns = usize::from(c.sources.clamp(1, 5));
+    let mut per: Vec<ArchiveIndexBuilder> = (0..ns).map(|_| ArchiveIndexBuilder::new()).collect();
+    let mut shared = 0usize;
+    for (i, k) in keys.iter().enumerate() {
+        let everywhere = c.shared_every > 0 && i % usize::from(c.shared_every) == 0;
+        for (s, b) in per.iter_mut().enumerate() {
+            if everywhere || i % ns == s {
+                b.add_entry(k.clone(), 100 + i as u32, (i as u64) * 128);
+            }
+        }
+        shared += usize::from(everywhere && ns > 1);
+    }
+    let mut sources: Vec<ArchiveIndex> = Vec::new();
+    for b in per {
+        let mut buf = Cursor::new(Vec::new());
+        if b.build(&mut buf).is_err() {
+            return Verdict::pass().class("builder-refused");
+        }
+        match ArchiveIndex::parse(Cursor::new(buf.into_inner())) {
+            Ok(i) => sources.push(i),
+            Err(_) => return Verdict::pass().class("source-index-not-parsed(C03)"),
+        }
+    }
+    let refs: Vec<(u16, &ArchiveIndex)> = sources.iter().enumerate().map(|(i, s)| (i as u16, s)).collect();
+    let mut out = Cursor::new(Vec::new());
+    if build_merged(&refs, &mut out).is_err() {
+        return Verdict::pass().class("builder-refused");
+    }
+    let bytes = out.into_inner();
+    let v = Verdict::pass().nontrivial(keys.len() >= 2 && shared > 0).class_if(keys.len() % 157 == 0 && !keys.is_empty(), "distinct-keys-fill-their-pages-exactly").class_if(shared > 0, "keys-shared-between-sources");
+    match ArchiveGroup::parse(&mut Cursor::new(&bytes)) {
+        Err(e) => v.with_fail("C08:archive-group:builder-output-rejected-by-own-parser", format!("{} distinct keys, {ns} sources, {shared} shared: {} ({} bytes)", keys.len(), vh_engine::util::normalise(&e.to_string()), bytes.len())),
+        Ok(g) => {
+            let got: Vec<&Vec<u8>> = g.entries.iter().map(|e| &e.encoding_key).collect();
+            let want: Vec<&Vec<u8>> = keys.iter().collect();
+            if got != want {
+                return v.with_fail("C08:archive-group:builder-output-parses-to-different-content", format!("{} distinct keys, {ns} sources, {shared} shared: parsed {} entries", keys.len(), got.len()));
+            }
+            v
+        }
+    }
+}
+
 // ---- text configs ----------------------------------------------------------
 
 #[derive(Debug, Clone, Serialize, Deserialize)]
@@ -667,6 +730,15 @@ fn main() {
             check_archive_index,
         )
         .shards(4),
+    );
+    ck.run(
+        Section::enumerate(
+            "builder-archive-group-merged",
+            "build_merged over 1..=3 source indices, distinct keys in {1, 2, 156, 157, 158, 313, 314, 315, 471, 628}, no key / every 2nd / every 7th key present in all sources: ArchiveGroup::parse accepts the output and finds each distinct key once, in order",
+            || Box::new([1u16, 2, 156, 157, 158, 313, 314, 315, 471, 628].into_iter().flat_map(|distinct| (1u8..=3).flat_map(move |sources| [0u8, 2, 7].into_iter().map(move |shared_every| GroupProg { distinct, sources, shared_every })))),
+            check_group,
+        )
+        .shards(8),
     );
     ck.run(
         Section::pbt(
